@@ -92,7 +92,8 @@ def time_limit(seconds: float):
         raise _Timeout()
 
     old = signal.signal(signal.SIGALRM, handler)
-    signal.setitimer(signal.ITIMER_REAL, seconds)
+    # repeating: if the first alarm is swallowed (e.g. it fires inside a gc callback) the next one still ends the call
+    signal.setitimer(signal.ITIMER_REAL, seconds, 2.0)
     try:
         yield
     except _Timeout:
